@@ -3,6 +3,7 @@ package main
 import (
 	"fmt"
 	"go/token"
+	"go/types"
 	"strings"
 
 	"golang.org/x/tools/go/ssa"
@@ -587,6 +588,33 @@ func contentWriters(c *Ctx, rule string) {
 	c.Floor(rule+"/stores", n, 4)
 }
 
+// advSoFar: how many leading path elements the walk recorded on this path has dropped, and how many
+// child lookups it has made (facts emitted by getTable's probe).
+func advSoFar(st *State) (off int64, steps int) {
+	for _, ev := range st.trace {
+		if ev.Label != "fact" {
+			continue
+		}
+		if strings.HasPrefix(ev.Note, "adv:") {
+			var k int64
+			fmt.Sscanf(ev.Note, "adv:%d", &k)
+			off += k
+		}
+		if strings.HasPrefix(ev.Note, "step:") {
+			steps++
+		}
+	}
+	return
+}
+
+func isBranchLookup(v ssa.Value) bool {
+	if ex, ok := v.(*ssa.Extract); ok && ex.Index == 0 {
+		v = ex.Tuple
+	}
+	lk, ok := v.(*ssa.Lookup)
+	return ok && isNamed(lk.X.Type(), "ctree", "branch")
+}
+
 // getTable: the exact-path lookup (*Tree).Get, per node: the path ends here => this node; otherwise a
 // branch that has the child path[0] => that child's Get with path[1:]; anything else => nil.  GetLeaf and
 // GetLeafValue are Get followed by a conversion / the nil-safe Value.
@@ -607,8 +635,16 @@ func getTable(c *Ctx, rule string) {
 		r := e.Resolve(st, rv)
 		switch v := r.V.(type) {
 		case *ssa.Call:
-			if la, ok := lenArg(v); ok && e.Resolve(st, RV{r.F, la}).V == pathP {
-				return "PLEN"
+			if la, ok := lenArg(v); ok {
+				lv := e.Resolve(st, RV{r.F, la})
+				if lv.V == pathP {
+					return "PLEN"
+				}
+				if _, isSl := lv.V.(*ssa.Slice); isSl && types.Identical(lv.V.Type(), pathP.Type()) && r.F != nil && r.F.Parent == nil {
+					if off, _ := advSoFar(st); off > 0 {
+						return fmt.Sprintf("PLEN-%d", off)
+					}
+				}
 			}
 		case *ssa.BinOp:
 			if v.Op != token.EQL && v.Op != token.NEQ {
@@ -711,8 +747,78 @@ func getTable(c *Ctx, rule string) {
 	}
 	for _, rw := range rows {
 		b := map[string]bool{"ISBRANCH": rw.kind == "branch", "EMPTY": rw.kind == "empty", "NOCHILD": !rw.child, "!EMPTY": rw.kind != "empty", "!NOCHILD": rw.child}
-		at := &Atoms{Class: cls, Bool: b, Int: map[string]int64{"PLEN": rw.plen}}
-		e := &PPA{Cond: at.Cond, MaxVisits: 2}
+		at := &Atoms{Class: cls, Bool: b, Int: map[string]int64{"PLEN": rw.plen, "PLEN-1": rw.plen - 1, "PLEN-2": rw.plen - 2, "PLEN-3": rw.plen - 3}}
+		// the loop form of Get keeps the current node and the rest of the path in loop variables.  An SSA value
+		// does not tell iterations apart, so the walk is recorded on the path itself: "adv:k" when the path
+		// is sliced from the front, "step:path[i]" when the current node's child map is looked up with the
+		// (absolute) element i; the node returned after the steps is the chain of those children.
+		e := &PPA{Cond: at.Cond, MaxVisits: 4, Watch: func(ev *Ev) bool { return ev.Label == "fact" },
+			Probe: func(e *PPA, st *State, fr *Frame, in ssa.Instruction) {
+				if fr.Parent != nil {
+					return
+				}
+				switch x := in.(type) {
+				case *ssa.Slice:
+					if x.High == nil && x.Max == nil && x.Low != nil && types.Identical(x.Type(), pathP.Type()) {
+						if k, ok := constInt(e.Resolve(st, RV{fr, x.Low}).V); ok {
+							e.emit(st, Ev{Label: "fact", In: in, F: fr, Note: fmt.Sprintf("adv:%d", k)})
+						}
+					}
+				case *ssa.Lookup:
+					if !isNamed(x.X.Type(), "ctree", "branch") {
+						return
+					}
+					off, steps := advSoFar(st)
+					key := "?"
+					kv := e.Resolve(st, RV{fr, x.Index})
+					if u, ok := kv.V.(*ssa.UnOp); ok && u.Op == token.MUL {
+						if ia, ok := u.X.(*ssa.IndexAddr); ok {
+							if k, okc := constInt(e.Resolve(st, RV{kv.F, ia.Index}).V); okc {
+								key = fmt.Sprintf("path[%d]", off+k)
+							}
+						}
+					}
+					// the map looked up belongs to the current node: the receiver before the first step, the
+					// previous step's child afterwards
+					mv := e.Resolve(st, RV{fr, x.X})
+					mx := mv.V
+					if ex, ok := mx.(*ssa.Extract); ok && ex.Index == 0 {
+						mx = ex.Tuple
+					}
+					cur := false
+					if ta, ok := mx.(*ssa.TypeAssert); ok {
+						if u, ok := ta.X.(*ssa.UnOp); ok && u.Op == token.MUL {
+							if fa, ok := u.X.(*ssa.FieldAddr); ok && fieldOf(fa) == fLB {
+								nv := e.Resolve(st, RV{mv.F, fa.X})
+								if steps == 0 {
+									cur = nv.V == tP
+								} else {
+									cur = isBranchLookup(nv.V)
+								}
+							}
+						}
+					}
+					if !cur {
+						key = "?"
+					}
+					e.emit(st, Ev{Label: "fact", In: in, F: fr, Note: "step:" + key})
+				case *ssa.Return:
+					if len(x.Results) != 1 {
+						return
+					}
+					r := e.Resolve(st, RV{fr, x.Results[0]})
+					d := describe(r)
+					if isBranchLookup(r.V) {
+						d = "this node"
+						for _, ev := range st.trace {
+							if ev.Label == "fact" && strings.HasPrefix(ev.Note, "step:") {
+								d = "child(" + d + ", " + strings.TrimPrefix(ev.Note, "step:") + ")"
+							}
+						}
+					}
+					e.emit(st, Ev{Label: "fact", In: in, F: fr, Note: "ret:" + d})
+				}
+			}}
 		e.Run(get)
 		c.Paths += len(e.Paths)
 		c.Scen++
@@ -724,7 +830,20 @@ func getTable(c *Ctx, rule string) {
 			}
 			n++
 			got := describe(p.Rets[0])
-			c.Check(got == rw.want, rule, fnName(get), rw.name, P.Pos(get.Pos()), fmt.Sprintf("returns %s, want %s", got, rw.want))
+			for k := range p.Trace {
+				if p.Trace[k].Label == "fact" && strings.HasPrefix(p.Trace[k].Note, "ret:") {
+					got = strings.TrimPrefix(p.Trace[k].Note, "ret:")
+				}
+			}
+			// loop form: the child chain followed to the end of the path stands for the recursive call
+			want2 := ""
+			if rw.child {
+				want2 = "this node"
+				for k := int64(0); k < rw.plen; k++ {
+					want2 = fmt.Sprintf("child(%s, path[%d])", want2, k)
+				}
+			}
+			c.Check(got == rw.want || (want2 != "" && got == want2), rule, fnName(get), rw.name, P.Pos(get.Pos()), fmt.Sprintf("returns %s, want %s", got, rw.want))
 		}
 		c.Check(n == 1, rule, fnName(get), rw.name+" (decided)", P.Pos(get.Pos()), fmt.Sprintf("%d returning paths (1 = every condition folded)", n))
 	}
